@@ -416,7 +416,9 @@ impl DecodeAttributeValue for Icmp {
 //@before "let icmp_type"
     proof {
         lemma_bitops_commute();
-        assert(icmp >> 9 == icmp / 512 && icmp >> 9 <= 127 && 0x01ff & icmp == icmp % 512 && 0x01ff & icmp <= 511) by (bit_vector);
+        // (stated width-independently: a change of the word's integer type must fail the postcondition, not this hint)
+        assert(icmp >> 9 == icmp / 512 && 0x01ff & icmp == icmp % 512 && 0x01ff & icmp <= 511) by (bit_vector);
+        assert(icmp <= 0xffff ==> icmp >> 9 <= 127) by (bit_vector);
         assert(raw_value@.subrange(2, 4) =~= ctx.raw_value@.subrange(2, 4));
     }
 //@stmt "Ok((Icmp::new(icmp_type, icmp_code, error_data), ICMP_SIZE))"
